@@ -533,6 +533,7 @@ int main(int argc, char** argv) {
         g_phase = "rep";
         vrt::g_armed = false;
         vrt::Ctx c;
+        c.small_sizes = true;
         Outcome last;
         for (long i = 0; i < n; ++i) {
           Scratch s;
